@@ -192,6 +192,7 @@ struct Program {
   std::vector<Slot> slots;
   std::vector<Call> calls;
   int ntasks = 0;  // 0: single sequence on the main thread
+  int persist_tmp = 0;  // one scratch buffer per executor, reused from call to call without refill (what callers do)
   Json to_json() const;
   bool from_json(const Json& j, std::string& err);
 };
@@ -310,6 +311,9 @@ struct Exec {
   void run_range(int task);        // all calls of a task (or -1) in program order
   void release_all();
   void place_groups();  // setup executor only: carve the column groups
+  uint8_t* ptmp = nullptr;  // persistent scratch (Program::persist_tmp)
+  uint64_t ptmp_cap = 0;
+  uint64_t n_tmp_reused = 0;
   std::vector<uint8_t*> group_blocks;
   uint64_t n_group_slots = 0;
   uint64_t slot_bytes(int slot) const;
